@@ -872,3 +872,24 @@ Definition uniq_loop_ok (d : uniq_loop_desc) : bool :=
       | _, _ => false
       end
   end.
+
+(* ------------------------------------------------------------------ what the packet processors queue *)
+
+(* one call `….results.Put(arg)` of a ProcessPacketData (tools/gen/putfresh.go, Gen/PutFresh.v):
+   ps_arg = "fresh" when arg is `&T{…}`, else its text; ps_ref_fields = the reference-typed fields of T
+   with "fresh" / "nil" / the text of their initialiser *)
+Record put_site := { ps_func : string; ps_arg : string; ps_type : string; ps_ref_fields : list (string * string) }.
+
+Fixpoint mem_string (x : string) (l : list string) : bool :=
+  match l with [] => false | y :: l' => String.eqb x y || mem_string x l' end.
+
+(* the model treats a queued result as an immutable value ([log_results], [uniq_run] work on values):
+   that is right only if every queued record, and everything it points to, was allocated for it *)
+Definition put_site_ok (s : put_site) : bool :=
+  String.eqb (ps_arg s) "fresh" && String.eqb (ps_type s) "ScanResult" &&
+  forallb (fun f => String.eqb (snd f) "fresh" || String.eqb (snd f) "nil") (ps_ref_fields s).
+
+Definition put_sites_ok (l : list put_site) : bool :=
+  forallb put_site_ok l &&
+  forallb (fun f => mem_string f (map ps_func l))
+          ["arp.ScanMethod.ProcessPacketData"; "tcp.ScanMethod.ProcessPacketData"; "icmp.PacketProcessor.ProcessPacketData"].
